@@ -345,7 +345,7 @@ func (w *World) functionBuilds() (map[fnBuildKey][]buildOutcome, *builderRoles, 
 			hooks := w.builderHooks(br)
 			ai := w.newInterp(hooks)
 			ai.MaxVisits = 8
-			st := newAState()
+			st := w.initState()
 			root := st.newObj(br.FuncNode, nil)
 			root.Fields[br.FnName] = aStr(name)
 			sl := st.newObj(br.FuncNode.Underlying().(*types.Struct).Field(br.FnArgs).Type(), nil)
@@ -412,7 +412,7 @@ func (w *World) operatorBuilds() (map[string][]buildOutcome, *builderRoles, erro
 	ops := append(append([]string{}, br.Ops...), unknownOperator)
 	for _, op := range ops {
 		ai := w.newInterp(w.builderHooks(br))
-		st := newAState()
+		st := w.initState()
 		root := st.newObj(br.OpNode, nil)
 		root.Fields[br.OpOp] = aStr(op)
 		root.Fields[br.OpLeft] = AVal{Kind: avUnknown, Tag: "left"}
@@ -444,7 +444,7 @@ func (w *World) axisBuildsAI() (map[string][]buildOutcome, *builderRoles, error)
 	for _, ax := range axes {
 		for _, withInput := range []bool{true, false} {
 			ai := w.newInterp(w.builderHooks(br))
-			st := newAState()
+			st := w.initState()
 			root := st.newObj(br.AxisNode, nil)
 			root.Extern = true // name, prefix, type test: whatever the expression said
 			root.Fields[br.AxAxis] = aStr(ax)
@@ -459,7 +459,15 @@ func (w *World) axisBuildsAI() (map[string][]buildOutcome, *builderRoles, error)
 			if !withInput {
 				key += "|noinput"
 			}
-			for _, o := range ai.Exec(br.AxisB, w.builderArgs(st, br, br.AxisB, root), nil, st) {
+			// the flags handed down by the enclosing construct select variants of
+			// a step (a descendant step below another descendant step): all of them
+			args := w.builderArgs(st, br, br.AxisB, root)
+			for i := 2; i < len(args) && i < len(br.AxisB.Params); i++ {
+				if bt, ok := br.AxisB.Params[i].Type().Underlying().(*types.Basic); ok && bt.Info()&types.IsInteger != 0 {
+					args[i] = aUnknown(nil)
+				}
+			}
+			for _, o := range ai.Exec(br.AxisB, args, nil, st) {
 				bo := classify(o)
 				bo.Root = root
 				out[key] = append(out[key], bo)
